@@ -31,6 +31,12 @@ var verifC19Programs = []string{
 	// several independent type errors in uncalled functions
 	"function f(a){a[1]; a=1} function g(b){b[1]; b=1} BEGIN{}",
 	"function f(a){a[1]; a=1} function g(b){b[1]; b=1} function h(c){c[1]; c=1} BEGIN{ x = 1 }",
+	// independent errors in two callees of the same caller
+	"function f(a){a[1]; a=1} function g(b){b[1]; b=1} BEGIN{ f(x); g(y) }",
+	"function top(){ f(x); g(y); h(z) } function f(a){a[1]; a=1} function g(b){b[1]; b=1} function h(c){c[1]; c=1} BEGIN{ top() }",
+	// two stray comma-separated expressions, the later one in a smaller column
+	"BEGIN {\n        (a, b)\n (c, d)\n}",
+	"BEGIN { x = 1 }\nEND {\n            (p, q)\n    (r, s)\n (t, u)\n}",
 	// errors in called functions and in a cycle
 	"function f(a){g(a); a[1]} function g(b){f(b); b=1} BEGIN{ f(x) }",
 	"function f(a){a[1]} BEGIN{ f(x); x = 1; y[1]; y = 2 }",
@@ -59,5 +65,5 @@ func verifC19Check(pi int) {
 	}
 }
 
-func VerifC19Errors()   { verifC19Check(verifIntRange(0, 3)) }
-func VerifC19Accepted() { verifC19Check(verifIntRange(4, 4+verifBound(1, 3))) }
+func VerifC19Errors()   { verifC19Check(verifIntRange(0, 7)) }
+func VerifC19Accepted() { verifC19Check(verifIntRange(8, 8+verifBound(1, 3))) }
